@@ -315,7 +315,7 @@ def history_s(draw, pid, tier, conf=None, max_clients=None, distinct_ids=False, 
             # ids are C ints: any value but -1 is a client, including ones further apart than INT_MAX
             pool = draw(st.lists(st.sampled_from(EXTREME_IDS), min_size=2, max_size=4, unique=True))
         else:
-            pool = draw(st.lists(st.integers(0, 40), min_size=1, max_size=3, unique=True))
+            pool = draw(st.lists(st.one_of(st.integers(0, 40), st.sampled_from([0, 0, 1])), min_size=1, max_size=3, unique=True))   # id 0 is a client like any other
         ids = [draw(st.sampled_from(pool)) for _ in range(nscripts)]
     scripts = []
     for cid in ids:
